@@ -1,13 +1,19 @@
 #!/bin/bash
-# run every check against every behaviour-preserving variant in benign/ ; prints only alarms
+# run every check against every behaviour-preserving variant in benign/ ; prints only alarms (${JOBS:-6} patches at a time)
 cd "$(dirname "$0")/.."
-for p in ${PATCHES:-benign/*.diff}; do
+one() {
+  p=$1
   D=$(mktemp -d /tmp/scr.XXXXXX)
   rsync -a --exclude target --exclude .git --exclude _seed /repo/ "$D/"
-  if ! (cd "$D" && patch -p1 -s < "$OLDPWD/$p" 2>/dev/null); then echo "== $p: does not apply"; rm -rf "$D"; continue; fi
-  echo "== $p"
+  if ! (cd "$D" && patch -p1 -s < "$OLDPWD/$p" >/dev/null 2>&1); then echo "== $p: does not apply"; rm -rf "$D"; return; fi
+  out="== $p"
   for id in ${CHECKS:-C01 C02 C03 C04 C05 C06 C07 C08 C09 C10 C11 C12 C13 C14 C15 C16 C17 C18}; do
-    VERIF_REPO="$D" VERIF_EVIDENCE_DIR="$D/.ev" VERIF_REPLAY_DIR="$D/.rp" python3 -m sa.run "$id" quick 2>&1 | grep -E "FAILED|checker|Traceback|Error" | sed "s|$D|<scratch>|g" | sed "s/^/   $id /" | cut -c1-260
+    r=$(VERIF_REPO="$D" VERIF_EVIDENCE_DIR="$D/.ev" VERIF_REPLAY_DIR="$D/.rp" python3 -m sa.run "$id" quick 2>&1 | grep -E "FAILED|checker|Traceback|Error" | sed "s|$D|<scratch>|g" | sed "s/^/   $id /" | cut -c1-260)
+    [ -n "$r" ] && out="$out"$'\n'"$r"
   done
+  echo "$out"
   rm -rf "$D"
-done
+}
+export -f one
+export CHECKS
+printf '%s\n' ${PATCHES:-benign/*.diff} | xargs -P ${JOBS:-6} -I{} bash -c 'one {}'
